@@ -262,6 +262,11 @@ impl Ctx {
         F: Fn(&C) -> Outcome + Send + Sync + 'static,
     {
         let mk = Arc::new(mk);
+        if let Ok(only) = std::env::var("VERIF_LEGS") {
+            if !only.split(',').any(|l| l == leg) {
+                return;
+            }
+        }
         let t0 = Instant::now();
         let workers = if parallel { self.workers.max(1).min(cases.max(1) as usize) } else { 1 };
         let per = (cases as usize + workers - 1) / workers;
